@@ -928,12 +928,22 @@ func (sc *srvScen) query(src *net.UDPAddr, q *qspec, expectOut bool, putErr, get
 
 // Make (id, addr) a routing-table entry that has answered us: the server pings addr, we answer.
 func (sc *srvScen) respondingNode(addr *net.UDPAddr, id [20]byte, ro bool) {
+	sc.respondingNodeVia(addr, id, ro, nil)
+}
+
+// The same, but when pinged is set the query is the table maintainer's questionable-node ping to the
+// entry (addr, *pinged); the reply may carry another ID than the one pinged.
+func (sc *srvScen) respondingNodeVia(addr *net.UDPAddr, id [20]byte, ro bool, pinged *[20]byte) {
 	if sc.dead {
 		return
 	}
 	w0 := sc.conn.numWrites()
 	done := make(chan dht.QueryResult, 1)
 	go func() {
+		if pinged != nil {
+			done <- sc.s.VerifQuestionableNodePing(context.Background(), dht.NewAddr(addr), *pinged)
+			return
+		}
 		done <- sc.s.Query(context.Background(), dht.NewAddr(addr), "ping", dht.QueryInput{NumTries: 1})
 	}()
 	if sc.isBlocked(addr.IP) {
